@@ -75,6 +75,8 @@ def _datasets(ctx, n):
         "u8": np.array([r.choice([0, 0, 1, 3, 200]) for _ in range(n)], dtype=np.uint8),
         "i16": np.array([r.randrange(-9, 10) for _ in range(n)], dtype=np.int16),
         "f32": np.array([r.randrange(-64, 64) / 4.0 for _ in range(n)], dtype=np.float32),
+        # valid values next to a large finite fill value (65535): only the fill itself is missing
+        "near_fill": np.array([r.choice([65535.0, 65534.5, 65535.5, 65534.0, 3.0, -2.5]) for _ in range(n)]),
     }
     return ds
 
@@ -191,6 +193,8 @@ def run_area(ctx, name, area):
                     vals = _fl(data)
                     inp = {**inp0, "data": dname, "data_chunks": dch}
                     fills = [(float("nan"), None)] + ([(-5.0, Fraction(-5))] if dname in ("with_nan", "ints") else [])
+                    if dname == "near_fill":
+                        fills = [(65535.0, Fraction(65535))]
                     if dname in ("neg_only", "u8", "i16", "cats") or (ctx.quick and dname in ("dyadic", "f32") and ch != n):
                         fills = []
                     for fill, ffill in fills:
